@@ -31,9 +31,10 @@ VARIABLES desc,      \* [g -> [route, shape]]  constant along a behaviour
           tmplTopo,  \* keys added to BASE_GRID_TOPOLOGY_ATTRS since import
           tmplEdge,  \* keys added to EDGE_NODE_CONNECTIVITY_ATTRS since import
           ops,       \* number of calls so far
-          bad        \* violations introduced by the last call: {<<clause, export index, detail>>}
+          bad,       \* violations introduced by the last call: {<<clause, export index, detail>>}
+          hist       \* the calls so far (bookkeeping for generation; never part of a VIEW)
 
-vars == <<desc, mesh, grid, exports, tmplTopo, tmplEdge, ops, bad>>
+vars == <<desc, mesh, grid, exports, tmplTopo, tmplEdge, ops, bad, hist>>
 
 Grids == { "g1", "g2" }
 Fmts  == { "ugrid", "exodus", "scrip" }
@@ -147,7 +148,23 @@ MeshOf(g, shape) ==
     [] g = "g2" /\ shape = "uni" -> << <<0,1,2,3>>, <<0,3,4,5>> >>
     [] g = "g2" /\ shape = "mix" -> << <<0,1,2,3>>, <<0,3,4>> >>
 
-NoBack == [ st |-> "none", faces |-> <<>> ]
+NoBack == [ st |-> "none", ok |-> TRUE ]
+
+(* ---- judging one export when it is produced --------------------------------- *)
+SameCore(a, b) ==
+  /\ a.status = b.status
+  /\ a.status = "ok" =>
+       /\ WellFormed(a.enc) = WellFormed(b.enc)
+       /\ (WellFormed(a.enc) /\ WellFormed(b.enc)) => FacesMatch(a.fmt, Decoded(a.enc), Decoded(b.enc))
+       /\ a.names \cap UgridBase = b.names \cap UgridBase
+\* e: the new export; ex: the exports before it
+JudgeExport(e, ex) ==
+  IF e.status # "ok" THEN { <<"Encodes", "">> }
+  ELSE { <<"MetadataClosed", n>> : n \in e.names \ e.vars }
+       \cup (IF ~WellFormed(e.enc) THEN { <<"WellFormed", WhyIllFormed(e.enc)>> }
+             ELSE IF ~FacesMatch(e.fmt, mesh[e.g], Decoded(e.enc)) THEN { <<"EncodedFaces", "">> } ELSE {})
+       \cup (IF \E j \in DOMAIN ex : ex[j].g = e.g /\ ex[j].fmt = e.fmt /\ ex[j].status = "ok" /\ ~SameCore(ex[j], e)
+             THEN { <<"HistoryIndependent", "">> } ELSE {})
 
 (* ---- actions, parameterised by their outcome ------------------------------- *)
 \* exports that ARE the grid's own dataset follow the grid
@@ -182,47 +199,41 @@ ToXarray(g, fmt, o) ==
   /\ Len(exports) < MaxExports
   /\ grid' = [ grid EXCEPT ![g].store = o.store, ![g].helper = o.gh ]
   /\ tmplTopo' = o.tT /\ tmplEdge' = o.tE
-  /\ exports' = Append(o.ex, [ g |-> g, fmt |-> fmt, status |-> o.status, vars |-> o.vars, names |-> o.names,
-                               helper |-> o.helper, alias |-> o.alias, enc |-> o.enc,
-                               written |-> "no", mem |-> NoBack, file |-> NoBack ])
+  /\ exports' = LET e == [ g |-> g, fmt |-> fmt, status |-> o.status, vars |-> o.vars, names |-> o.names,
+                            helper |-> o.helper, alias |-> o.alias, enc |-> o.enc, jud |-> {},
+                            written |-> "no", mem |-> NoBack, file |-> NoBack ]
+                 IN Append(o.ex, [ e EXCEPT !.jud = JudgeExport(e, o.ex) ])
 
-\* o = [ok]
+\* o = [ok, enc]   (enc: the E-record of the file as written)
 WriteNetcdf(k, o) ==
   /\ k \in DOMAIN exports /\ exports[k].status = "ok"
-  /\ exports' = [ exports EXCEPT ![k].written = IF o.ok /\ @ # "fail" THEN "ok" ELSE "fail" ]
+  /\ exports' = [ exports EXCEPT
+        ![k].written = IF ~o.ok THEN (IF exports[k].helper # {} THEN "fail_helper_attrs" ELSE "fail")
+                       ELSE IF @ \in { "no", "ok" } THEN "ok" ELSE @,
+        ![k].jud = @ \cup (IF ~o.ok THEN {}
+                           ELSE IF ~WellFormed(o.enc) THEN { <<"WellFormed", "file:" \o WhyIllFormed(o.enc)>> }
+                           ELSE IF ~FacesMatch(exports[k].fmt, mesh[exports[k].g], Decoded(o.enc)) THEN { <<"EncodedFaces", "file">> }
+                           ELSE {}) ]
   /\ UNCHANGED <<grid, tmplTopo, tmplEdge>>
 
 \* o = [st, faces]
 Reopen(k, via, o) ==
   /\ k \in DOMAIN exports /\ exports[k].status = "ok"
   /\ via = "file" => exports[k].written = "ok"
-  /\ exports' = IF via = "mem" THEN [ exports EXCEPT ![k].mem = o ] ELSE [ exports EXCEPT ![k].file = o ]
+  /\ LET r == [ st |-> o.st, ok |-> o.st = "ok" /\ FacesMatch(exports[k].fmt, mesh[exports[k].g], o.faces) ]
+     IN exports' = IF via = "mem" THEN [ exports EXCEPT ![k].mem = r ] ELSE [ exports EXCEPT ![k].file = r ]
   /\ UNCHANGED <<grid, tmplTopo, tmplEdge>>
 
 (* ---- the invariants, as the set of <<clause, export, detail>> that are false ---- *)
-Prior(k, ex) == { j \in 1..(k - 1) : ex[j].g = ex[k].g /\ ex[j].fmt = ex[k].fmt }
-SameCore(a, b) ==
-  /\ a.status = b.status
-  /\ a.status = "ok" =>
-       /\ WellFormed(a.enc) = WellFormed(b.enc)
-       /\ (WellFormed(a.enc) /\ WellFormed(b.enc)) => FacesMatch(a.fmt, Decoded(a.enc), Decoded(b.enc))
-       /\ a.names \cap UgridBase = b.names \cap UgridBase
-
 Violated ==
-  (IF tmplTopo # {} \/ tmplEdge # {} THEN { <<"TemplatesConstant", 0, t>> : t \in tmplTopo \cup tmplEdge } ELSE {})
+  { <<"TemplatesConstant", 0, t>> : t \in tmplTopo \cup tmplEdge }
   \cup UNION { LET e == exports[k] IN
-      (IF e.status # "ok" THEN { <<"Encodes", k, "">> } ELSE {})
-      \cup (IF e.status = "ok" THEN { <<"MetadataClosed", k, n>> : n \in e.names \ e.vars } ELSE {})
+      { <<v[1], k, v[2]>> : v \in e.jud }
       \cup { <<"Serialisable", k, v>> : v \in e.helper }
       \cup (IF e.written = "fail" THEN { <<"Serialisable", k, "to_netcdf">> } ELSE {})
-      \cup (IF e.status = "ok" /\ ~WellFormed(e.enc) THEN { <<"WellFormed", k, "">> } ELSE {})
-      \cup (IF e.status = "ok" /\ WellFormed(e.enc) /\ ~FacesMatch(e.fmt, mesh[e.g], Decoded(e.enc))
-            THEN { <<"EncodedFaces", k, "">> } ELSE {})
-      \cup (IF e.mem.st = "raise" \/ (e.mem.st = "ok" /\ ~FacesMatch(e.fmt, mesh[e.g], e.mem.faces))
-            THEN { <<"RoundTrip", k, "mem">> } ELSE {})
-      \cup (IF e.file.st = "raise" \/ (e.file.st = "ok" /\ ~FacesMatch(e.fmt, mesh[e.g], e.file.faces))
-            THEN { <<"RoundTrip", k, "file">> } ELSE {})
-      \cup (IF \E j \in Prior(k, exports) : ~SameCore(exports[j], e) THEN { <<"HistoryIndependent", k, "">> } ELSE {})
+      \cup (IF e.written = "fail_helper_attrs" THEN { <<"Serialisable", k, "to_netcdf_with_helper_attrs">> } ELSE {})
+      \cup (IF e.mem.st = "raise" \/ ~e.mem.ok THEN { <<"RoundTrip", k, "mem">> } ELSE {})
+      \cup (IF e.file.st = "raise" \/ ~e.file.ok THEN { <<"RoundTrip", k, "file">> } ELSE {})
     : k \in DOMAIN exports }
 
 Clause(c) == \A v \in Violated : v[1] # c
@@ -244,7 +255,7 @@ FunctionOfSource == \A k \in DOMAIN exports : exports[k].status = "ok" /\ export
 \* the dialect theorem: the intended writers produce well-formed output that both the format's
 \* conventions and the library's (intended) readers decode to the source faces
 DialectRoundTrip ==
-  \A g \in Grids, fmt \in Fmts :
+  ops = 0 => \A g \in Grids, fmt \in Fmts :
      LET E == FreshEnc(g, fmt) IN
        /\ WellFormed(E) /\ FacesMatch(fmt, mesh[g], Decoded(E))
        /\ ReadBack(E, "all_blocks").st = "ok" /\ FacesMatch(fmt, mesh[g], ReadBack(E, "all_blocks").faces)
@@ -301,7 +312,7 @@ OutScrip(g) ==
        enc |-> IF raises THEN NoEnc ELSE EncScrip(mesh[g]), store |-> st, gh |-> grid[g].helper,
        tT |-> tmplTopo, tE |-> tmplEdge, ex |-> Follow(exports, g, st, grid[g].helper) ]
 OutToXarray(g, fmt) == CASE fmt = "ugrid" -> OutUgrid(g) [] fmt = "exodus" -> OutExodus(g) [] fmt = "scrip" -> OutScrip(g)
-OutWrite(k)  == [ ok |-> exports[k].helper = {} ]
+OutWrite(k)  == [ ok |-> exports[k].helper = {}, enc |-> exports[k].enc ]
 OutReopen(k) == ReadBack(exports[k].enc, Mech.exoReader)
 
 (* ---- the machine ---------------------------------------------------------------- *)
@@ -311,16 +322,17 @@ Init ==
   /\ desc["g2"].route \in Routes2 /\ desc["g2"].shape \in Shapes2
   /\ mesh = [ g \in Grids |-> MeshOf(g, desc[g].shape) ]
   /\ grid = [ g \in Grids |-> [ open |-> FALSE, store |-> {}, helper |-> {}, chunked |-> FALSE ] ]
-  /\ exports = <<>> /\ tmplTopo = {} /\ tmplEdge = {} /\ ops = 0 /\ bad = {}
+  /\ exports = <<>> /\ tmplTopo = {} /\ tmplEdge = {} /\ ops = 0 /\ bad = {} /\ hist = <<>>
 
-Tick == /\ ops < MaxOps /\ ops' = ops + 1 /\ UNCHANGED <<desc, mesh>> /\ bad' = Violated' \ Violated
+Tick(call) == /\ ops < MaxOps /\ ops' = ops + 1 /\ UNCHANGED <<desc, mesh>> /\ bad' = Violated' \ Violated
+              /\ hist' = Append(hist, call)
 
-DoOpen(g)          == Open(g, OutOpen(g)) /\ Tick
-DoAccess(g, a)     == Access(g, a, OutAccess(g, a)) /\ Tick
-DoChunk(g)         == Chunk(g, OutChunk(g)) /\ Tick
-DoToXarray(g, fmt) == ToXarray(g, fmt, OutToXarray(g, fmt)) /\ Tick
-DoWrite(k)         == WithIO /\ WriteNetcdf(k, OutWrite(k)) /\ Tick
-DoReopen(k, via)   == WithIO /\ Reopen(k, via, OutReopen(k)) /\ Tick
+DoOpen(g)          == Open(g, OutOpen(g)) /\ Tick(<<"Open", g>>)
+DoAccess(g, a)     == Access(g, a, OutAccess(g, a)) /\ Tick(<<"Access", g, a>>)
+DoChunk(g)         == Chunk(g, OutChunk(g)) /\ Tick(<<"Chunk", g>>)
+DoToXarray(g, fmt) == ToXarray(g, fmt, OutToXarray(g, fmt)) /\ Tick(<<"ToXarray", g, fmt>>)
+DoWrite(k)         == WithIO /\ WriteNetcdf(k, OutWrite(k)) /\ Tick(<<"Write", k>>)
+DoReopen(k, via)   == WithIO /\ Reopen(k, via, OutReopen(k)) /\ Tick(<<"Reopen", k, via>>)
 
 Next == \/ \E g \in Grids : DoOpen(g)
         \/ \E g \in Grids, a \in Attr : DoAccess(g, a)
@@ -335,6 +347,16 @@ Spec == Init /\ [][Next]_vars
 Feature(g) == [ open |-> grid[g].open, chunked |-> grid[g].chunked, helper |-> grid[g].helper,
                 see |-> grid[g].store \cap ({ TOPO, "node_lon", "node_x", "face_lon", "edge_lon", "face_areas" } \cup ConnNames),
                 edim |-> grid[g].store \cap EdgeDimVars # {} ]
+\* everything but the bookkeeping
+NoHist == <<desc, mesh, grid, exports, tmplTopo, tmplEdge, ops, bad>>
+\* one line per violating state class, with a shortest history reaching it (generation of
+\* directed tests from Mech_observed)
+CexView == << desc, [ g \in Grids |-> Feature(g) ],
+              [ k \in DOMAIN exports |-> << exports[k].g, exports[k].fmt, exports[k].status, exports[k].alias,
+                                             exports[k].jud, exports[k].helper, exports[k].written,
+                                             exports[k].mem, exports[k].file >> ],
+              tmplTopo, tmplEdge, ops, bad >>
+EmitCex == bad = {} \/ PrintT(<<"CEX", desc, hist, bad>>)
 GenView == << desc, [ g \in Grids |-> Feature(g) ],
               [ k \in DOMAIN exports |-> << exports[k].g, exports[k].fmt, exports[k].status, exports[k].alias >> ],
               tmplTopo, tmplEdge, ops >>
